@@ -49,6 +49,12 @@ def describe(run, l, clause, S):
     rule = rule_of(ev, S)
     if ev.get("e") in ("Reparse", "FixEnd", "Norm", "Parse"):
         rule = ""
+    if ev.get("e") in ("RunCrash", "FixAbort", "CheckAbort"):
+        # attribute the abort of the run to the rule whose analyze/fix raised
+        for prev in reversed(run["ev"][: max(0, l - 1)]):
+            if prev.get("e") == "Crash":
+                rule = rule_of(prev, S)
+                break
     f = {
         "property": clause_property(clause),
         "clause": clause,
@@ -99,14 +105,22 @@ def load_known():
 
 def matches(entry, f):
     """an entry lists the fields that identify it; a field that is absent or '*' matches anything"""
+    pre = entry.get("input_prefix")
+    if pre is not None:
+        base = f.get("input", "").split("#")[0]
+        if not any(base.startswith(x) for x in (pre if isinstance(pre, list) else [pre])):
+            return False
     for k in ("property", "clause", "rule", "input", "config"):
         v = entry.get(k)
         if v is None or v == "*":
             continue
+        have = f.get(k, "")
+        if k == "input":
+            have = have.split("#")[0]  # a re-layout variant of a listed input is the same finding
         if isinstance(v, list):
-            if f.get(k, "") not in v:
+            if have not in v:
                 return False
-        elif f.get(k, "") != v:
+        elif have != v:
             return False
     return True
 
